@@ -26,6 +26,8 @@ pub struct Peer {
     pub req_done: Vec<u32>,
     pub eof_sent: bool,
     pub reset_sids: Vec<u32>,
+    /// PINGs seen while automatic acknowledgement was off (acknowledged when it is switched on again)
+    pub pending_pings: Vec<[u8; 8]>,
 }
 
 pub fn unhex(s: &str) -> Vec<u8> {
@@ -61,6 +63,7 @@ impl Peer {
             req_done: vec![],
             eof_sent: false,
             reset_sids: vec![],
+            pending_pings: vec![],
         }
     }
 
@@ -107,10 +110,14 @@ impl Peer {
                     }
                 }
                 PING => {
-                    if f.flags & F_ACK == 0 && self.cfg.ack_ping && f.payload.len() == 8 {
+                    if f.flags & F_ACK == 0 && f.payload.len() == 8 {
                         let mut pl = [0u8; 8];
                         pl.copy_from_slice(&f.payload);
-                        self.send(w, &f_ping(true, pl));
+                        if self.cfg.ack_ping {
+                            self.send(w, &f_ping(true, pl));
+                        } else {
+                            self.pending_pings.push(pl);
+                        }
                     }
                 }
                 DATA => {
@@ -299,6 +306,11 @@ impl Peer {
                 }
                 if let Some(v) = ack_ping {
                     self.cfg.ack_ping = v;
+                    if v {
+                        for pl in std::mem::take(&mut self.pending_pings) {
+                            self.send(w, &f_ping(true, pl));
+                        }
+                    }
                 }
                 if let Some(v) = grant {
                     self.cfg.grant = v;
